@@ -134,8 +134,13 @@ func (s *RoundTrip) Run(env *core.Env, st *core.Stats) (vs []core.Violation) {
 		if nontrivial {
 			st.Distinct(h)
 		}
-		if len(want.Tracks) > 0 {
+		if len(want.Tracks) > 0 && s.Hist.payloadBytes() < 4096 {
 			st.Sample(s)
+		}
+		if pb := s.Hist.payloadBytes(); pb >= 1<<24 {
+			st.Probe("payload-above-16-MiB")
+		} else if pb >= 1<<21 {
+			st.Probe("payload-of-2-MiB")
 		}
 	}
 
@@ -318,4 +323,14 @@ func tempDir(env *core.Env) string {
 		env.T.Cleanup(func() { os.RemoveAll(d) })
 	}
 	return workerTempDir
+}
+
+func (h *APIHist) payloadBytes() int {
+	n := 0
+	for _, op := range h.Ops {
+		for _, m := range op.Msgs {
+			n += len(m)
+		}
+	}
+	return n
 }
